@@ -31,6 +31,14 @@ type SpecInfo struct {
 	Effects []ast.Stmt // ghost effects executed at exit of the real function
 	Flags   map[string]bool
 	Trusted bool // ext_/assumed: never verified against a body
+	Selections []Selection
+}
+
+// Selection: only("clause", labels...) / hide("clause", labels...) choose the hypotheses of one obligation.
+type Selection struct {
+	Clause string
+	Only   bool
+	Labels []string
 }
 
 type FuncInfo struct {
@@ -152,7 +160,7 @@ func loadProgram(dir string) (*Program, error) {
 				}
 				fi := &FuncInfo{Key: qualName(pk.Name, recvBaseName(fd), name), Pkg: pk, Decl: fd, Obj: obj,
 					Loops: map[int]*SpecInfo{}, IsSpecFile: isSpec}
-				if isSpec && strings.HasPrefix(name, "sp_") {
+				if isSpec && (strings.HasPrefix(name, "sp_") || strings.HasPrefix(name, "op_")) {
 					p.pure[obj] = fi
 				}
 				if isSpec && strings.HasPrefix(name, "gh_") {
@@ -218,6 +226,34 @@ func (p *Program) parseSpec(pk *packages.Package, fd *ast.FuncDecl) (*SpecInfo, 
 		es, ok := st.(*ast.ExprStmt)
 		if ok {
 			if call, ok := es.X.(*ast.CallExpr); ok {
+				if id, ok := call.Fun.(*ast.Ident); ok && id.Name == "reveal" {
+					sel := Selection{Clause: "#reveal"}
+					for _, a := range call.Args {
+						if bl, ok := a.(*ast.BasicLit); ok {
+							v, _ := strconv.Unquote(bl.Value)
+							sel.Labels = append(sel.Labels, v)
+						}
+					}
+					si.Selections = append(si.Selections, sel)
+					continue
+				}
+				if id, ok := call.Fun.(*ast.Ident); ok && (id.Name == "only" || id.Name == "hide") {
+					sel := Selection{Only: id.Name == "only"}
+					for i, a := range call.Args {
+						bl, ok := a.(*ast.BasicLit)
+						if !ok {
+							return nil, fmt.Errorf("%s: only/hide take string literals", p.fset.Position(a.Pos()))
+						}
+						v, _ := strconv.Unquote(bl.Value)
+						if i == 0 {
+							sel.Clause = v
+						} else {
+							sel.Labels = append(sel.Labels, v)
+						}
+					}
+					si.Selections = append(si.Selections, sel)
+					continue
+				}
 				if id, ok := call.Fun.(*ast.Ident); ok && clauseKinds[id.Name] {
 					c := Clause{Kind: id.Name, Pos: call.Pos()}
 					args := call.Args
